@@ -42,7 +42,7 @@ func (m *MongoMutex) Lock(ctx context.Context, ops ...mod.LockOptionOp) error {
 		select {
 		case <-ticker.C:
 			if err := m.spinLock(ctx, opt); err != nil {
-				return nil
+				return err
 			}
 			// already keep lock
 			if m.lockDetail != nil {
